@@ -45,6 +45,10 @@ class MpOps:
         return mp.power(a, b)
 
 
+PROG = [None]     # the loaded program, for closed forms that call other member functions (set by the check)
+_depth = [0]
+
+
 def evaluate(fn, ops, params, fields, opaque=None):
     """value of the function's return expression. params: name -> value; fields: name -> value (members of *this);
     opaque: member-function name -> callable, for members that are not closed forms (tabulated profiles)"""
@@ -98,6 +102,16 @@ def evaluate(fn, ops, params, fields, opaque=None):
                 return ops.fn[name](ev(e["args"][0]))
             if opaque and name in opaque and e.get("this") is not None and e["this"].get("k") == "This":
                 return opaque[name](*[ev(a) for a in e["args"]])
+            if PROG[0] is not None and e.get("this") is not None and e["this"].get("k") == "This" and _depth[0] < 4:
+                # a closed form that delegates to another member function of the same object (u_D_Interior returning
+                # X::u_D(...)): the callee's closed form with the arguments substituted
+                cands = [f for f in PROG[0].fns(e.get("callee", "")) if len(f["params"]) == len(e["args"]) and f.get("body") is not None]
+                if len(cands) == 1:
+                    _depth[0] += 1
+                    try:
+                        return evaluate(cands[0], ops, {p_["name"]: ev(a) for p_, a in zip(cands[0]["params"], e["args"])}, fields, opaque)
+                    finally:
+                        _depth[0] -= 1
         raise AnalysisBroken("expression %s (%s) in %s is outside the closed-form fragment" % (k, ir.show(e)[:60], fn["qn"]))
 
     def run(stmts):
